@@ -1,3 +1,4 @@
+import BalmProofs.AllOpsPres
 import BalmProofs.GenericInv
 import BalmProofs.JudgeExact
 import BalmProofs.WeakSpec
